@@ -38,6 +38,12 @@ import (
 //     primary and for the non-primary ("-2nd") tunnel, on R's side and on the peer's side;
 //   * relayed data, authentically wrapped by every peer with every tunnel it holds with R (primary and lingering), on
 //     every relay index R holds, on every index R held earlier in the history and no longer lists, and on an unknown index.
+// Cast certificates: in the plain configurations every cast member's certificate carries its overlay address only. In
+// the "routed" configurations one cast member (the outsider in quick; the outsider, the target or the initiator in
+// thorough) holds a certificate with an UNSAFE (routed) network that covers the overlay address of every other cast
+// member, R's included: every table R keeps about that peer except its own overlay addresses (HostInfo.networks, the
+// firewall's routable networks) then says "this address is behind that peer", and all the crafted requests/responses
+// above whose RelayFrom/RelayTo name another cast member are requests for an address the sender routes but does not own.
 // After EVERY event, on every node: relay-state transitions, hostMap.Relays ownership and every forwarded datagram are
 // judged (see audit). The forwarding oracle uses ground truth only: who really sent the frame (whose tunnel key made the
 // outer tag), which index it leaves on, and what the DESTINATION node itself recorded for that index.
@@ -47,14 +53,27 @@ import (
 type c39Cfg struct {
 	amRelay bool
 	ver     cert.Version
+	routed  string // cast member whose certificate carries c39RoutedNet as an unsafe network ("" = all certificates plain)
 }
 
-func (c c39Cfg) String() string { return fmt.Sprintf("am_relay=%v/cert-v%d", c.amRelay, c.ver) }
+// c39RoutedNet covers every cast member's overlay address (checked in c39New against what R really recorded).
+const c39RoutedNet = "10.0.0.0/28"
+
+func (c c39Cfg) String() string {
+	s := fmt.Sprintf("am_relay=%v/cert-v%d", c.amRelay, c.ver)
+	if c.routed != "" {
+		s += fmt.Sprintf("/cert-of-%s-routes-%s", c.routed, c39RoutedNet)
+	}
+	return s
+}
 
 type c39Stats struct {
 	transitions, noops, rebuilds, forwards, fwdByData, dataRefused, ctlRefused, ctlAccepted, slotDeaths, honestDelivered,
 	migrations, spoofFinding, otherViolations, exactTransitions, probes, probesFormer, probesSecond, secondClosed, nonFinalDeletes,
 	nonFinalDeletesWithSlots, fwdOnSecond, fwdOntoDropped int64
+	// routed configurations: crafted control messages whose RelayFrom is an address the sender's certificate routes (unsafe
+	// network) but does not own; honest packets delivered from / to the routed cast member
+	reqCovered, reqCoveredRefused, reqCoveredEffect, respCovered, routedHonest, routedWorlds int64
 	stateSeen [4]int64
 	trans     map[string]int64
 }
@@ -126,7 +145,11 @@ func c39New(t testing.TB, c *mc.Check, st *c39Stats, cfg c39Cfg) *c39World {
 			shm[ips["r"]] = []string{udp("r")}
 		}
 		ov["static_host_map"] = shm
-		specs = append(specs, vnodeSpec{Name: n, Networks: ips[n] + "/24", Udp: udp(n), Version: cfg.ver, Overrides: ov})
+		sp := vnodeSpec{Name: n, Networks: ips[n] + "/24", Udp: udp(n), Version: cfg.ver, Overrides: ov}
+		if n == cfg.routed {
+			sp.Unsafe = c39RoutedNet
+		}
+		specs = append(specs, sp)
 	}
 	net := c39Net(t, c.Seed(), specs)
 	w := &c39World{t: t, c: c, st: st, cfg: cfg, net: net, nodes: map[string]*vnode{}, names: c39Names, addr: map[string]netip.Addr{}, who: map[netip.Addr]string{},
@@ -144,6 +167,21 @@ func c39New(t testing.TB, c *mc.Check, st *c39Stats, cfg c39Cfg) *c39World {
 		if w.nodes[n].f.hostMap.QueryVpnAddr(w.addr["r"]) == nil || w.nodes["r"].f.hostMap.QueryVpnAddr(w.addr[n]) == nil {
 			c.Broken("c39: leg %s-r not established", n)
 		}
+	}
+	if cfg.routed != "" {
+		// the world really has the claimed shape: R's own record of the routed peer says "its overlay address is its own,
+		// every other cast member's address (mine included) is behind it"
+		hi := w.nodes["r"].f.hostMap.QueryVpnAddr(w.addr[cfg.routed])
+		if hi.networks == nil || len(hi.vpnAddrs) != 1 || hi.vpnAddrs[0] != w.addr[cfg.routed] {
+			c.Broken("c39: R holds no routable-networks table for the routed peer %s (vpnAddrs %v)", cfg.routed, hi.vpnAddrs)
+		}
+		for _, n := range c39Names {
+			nt, ok := hi.networks.Lookup(w.addr[n])
+			if want := map[bool]NetworkType{true: NetworkTypeVPN, false: NetworkTypeUnsafe}[n == cfg.routed]; !ok || nt != want {
+				c.Broken("c39: R's table for the routed peer %s says %v/%v for %s, want %v", cfg.routed, nt, ok, n, want)
+			}
+		}
+		st.routedWorlds++
 	}
 	w.evEmitted, w.evDelivered = nil, nil
 	w.everRSet = map[uint32]bool{}
@@ -550,6 +588,7 @@ func (w *c39World) apply(e c39Ev) (dirty bool) {
 	}
 	r := w.nodes["r"]
 	w.lossR = e.Loss
+	covered := false // a crafted control message was sent whose RelayFrom the sender's certificate routes but does not own
 	switch e.K {
 	case "req", "resp":
 		msg := &NebulaControl{Type: NebulaControl_CreateRelayRequest}
@@ -590,9 +629,11 @@ func (w *c39World) apply(e c39Ev) (dirty bool) {
 		} else {
 			msg.RelayFromAddr, msg.RelayToAddr = netAddrToProtoAddr(w.addr[e.From]), netAddrToProtoAddr(w.addr[e.To])
 		}
-		if ok && w.sendCtl(e.S, msg) {
+		sent := ok && w.sendCtl(e.S, msg)
+		if sent {
 			w.run()
 		}
+		covered = sent && w.cfg.routed == e.S && e.From != e.S
 	case "data":
 		x := w.nodes[e.S]
 		hi := x.f.hostMap.QueryVpnAddr(w.addr["r"])
@@ -624,6 +665,9 @@ func (w *c39World) apply(e c39Ev) (dirty bool) {
 			w.run()
 			if len(w.net.tunLog[e.To]) > got {
 				w.st.honestDelivered++
+				if w.cfg.routed != "" && (w.cfg.routed == e.S || w.cfg.routed == e.To) {
+					w.st.routedHonest++
+				}
 				break
 			}
 			vtime.Advance(100 * vtime.Millisecond)
@@ -716,7 +760,18 @@ func (w *c39World) apply(e c39Ev) (dirty bool) {
 	w.lossR = false
 	defer w.audit(e, before)
 	if keyBefore != "" {
-		if w.key() == keyBefore {
+		changed := w.key() != keyBefore
+		if covered && e.K == "resp" {
+			w.st.respCovered++
+		} else if covered {
+			w.st.reqCovered++
+			if changed {
+				w.st.reqCoveredEffect++
+			} else {
+				w.st.reqCoveredRefused++
+			}
+		}
+		if !changed {
 			w.st.ctlRefused++
 		} else {
 			w.st.ctlAccepted++
@@ -1117,6 +1172,10 @@ func (w *c39World) audit(e c39Ev, before map[c39SlotID]Relay) {
 			} else {
 				w.violation("the relay forwarded one peer's traffic onto a relay slot the destination negotiated for a different peer", det)
 			}
+		case dslot == nil && oh.RemoteIndex == 0:
+			// its own signature (see proposed_fixes/C39-established-without-remote-index.md): the relay's slot for the onward leg
+			// never learned an index from the destination at all, and was marked Established all the same
+			w.violation("the relay forwarded on relay index 0: its slot for the onward leg was marked Established without ever learning the destination's index", det)
 		case dslot == nil:
 			w.violation("the relay forwarded on an index the destination never announced on its current tunnel (onward leg not established)", det)
 		}
@@ -1227,7 +1286,7 @@ func TestVerifC39(t *testing.T) {
 	probe := []c39Ev{{K: "honest", S: "i", To: "t"}, {K: "req", S: "o", From: "i", To: "t"}, {K: "data", S: "i", Idx: 0}, {K: "close", S: "t"}, {K: "rehs", S: "t"}, {K: "tickR"}}
 	var keys, wires []string
 	for k := 0; k < 2; k++ {
-		w := c39New(t, c, &c39Stats{trans: map[string]int64{}}, c39Cfg{true, cert.Version2})
+		w := c39New(t, c, &c39Stats{trans: map[string]int64{}}, c39Cfg{true, cert.Version2, ""})
 		for _, e := range probe {
 			w.apply(e)
 		}
@@ -1260,10 +1319,18 @@ func TestVerifC39(t *testing.T) {
 		roots [][]c39Ev
 	}
 	nA := mc.Pick(c, 6, len(anchors))
-	jobs := []job{{c39Cfg{true, cert.Version2}, 0.62, anchors[:nA]}, {c39Cfg{false, cert.Version2}, 0.12, anchors[:2]},
-		{c39Cfg{true, cert.Version1}, 0.18, anchors[:2]}, {c39Cfg{false, cert.Version1}, 0.08, anchors[:1]}}
+	// the routed configurations come second: their share of the budget must not depend on how far the big job got
+	jobs := []job{{c39Cfg{true, cert.Version2, ""}, 0.50, anchors[:nA]}, {c39Cfg{true, cert.Version2, "o"}, 0.16, anchors[:2]},
+		{c39Cfg{false, cert.Version2, ""}, 0.10, anchors[:2]}, {c39Cfg{true, cert.Version1, ""}, 0.16, anchors[:2]},
+		{c39Cfg{false, cert.Version1, ""}, 0.08, anchors[:1]}}
 	if c.Thorough() {
-		jobs[2].roots = [][]c39Ev{anchors[0], anchors[1], anchors[4]} // v1 certificates: the two-tunnel leg as well
+		v1roots := [][]c39Ev{anchors[0], anchors[1], anchors[4]} // v1 certificates: the two-tunnel leg as well
+		jobs = []job{{c39Cfg{true, cert.Version2, ""}, 0.50, anchors[:nA]},
+			{c39Cfg{true, cert.Version2, "o"}, 0.14, [][]c39Ev{anchors[0], anchors[1], anchors[2], anchors[4], anchors[6]}},
+			{c39Cfg{true, cert.Version2, "t"}, 0.05, anchors[:2]}, {c39Cfg{true, cert.Version2, "i"}, 0.05, anchors[:2]},
+			{c39Cfg{true, cert.Version1, "o"}, 0.05, anchors[:2]},
+			{c39Cfg{false, cert.Version2, ""}, 0.08, anchors[:2]}, {c39Cfg{true, cert.Version1, ""}, 0.09, v1roots},
+			{c39Cfg{false, cert.Version1, ""}, 0.04, anchors[:1]}}
 	}
 	budget := mc.Pick(c, 34.0, 800.0)
 	if v, err := strconv.ParseFloat(os.Getenv("VERIF_BUDGET_S"), 64); err == nil && v > 0 && 0.92*v < budget {
@@ -1281,7 +1348,7 @@ func TestVerifC39(t *testing.T) {
 		f0 := st.forwards
 		n, d, ex := c39Search(t, c, st, j.cfg, j.roots, depth, deadline)
 		total += n
-		perCfg[j.cfg.String()] = map[string]any{"states": n, "depth_completed": d, "closed": ex, "forwards": st.forwards - f0}
+		perCfg[j.cfg.String()] = map[string]any{"states": n, "depth_completed": d, "closed": ex, "forwards": st.forwards - f0, "anchors": len(j.roots)}
 		if j.cfg.amRelay {
 			fwdRelay += st.forwards - f0
 		} else {
@@ -1301,6 +1368,10 @@ func TestVerifC39(t *testing.T) {
 	c.Set("forwards_on_slots_of_a_lingering_tunnel", st.fwdOnSecond)
 	c.Set("forwards_onto_an_index_the_destination_dropped_without_telling_the_relay", st.fwdOntoDropped)
 	c.Set("anchor_histories", fmt.Sprint(anchors[:nA]))
+	c.Set("routed_configurations", map[string]any{"unsafe_network_in_the_certificate": c39RoutedNet, "worlds_built_and_checked_against_the_relays_own_table": st.routedWorlds,
+		"crafted_requests_with_a_relayfrom_the_sender_routes_but_does_not_own": st.reqCovered, "of_these_without_effect_on_any_node": st.reqCoveredRefused,
+		"of_these_with_effect_(the_relay_itself_is_the_named_target)": st.reqCoveredEffect, "crafted_responses_with_such_a_relayfrom": st.respCovered,
+		"honest_packets_delivered_from_or_to_the_routed_peer": st.routedHonest})
 	c.Set("events_without_effect_on_state", st.noops)
 	c.Set("forwarded_datagrams_judged", st.forwards)
 	c.Set("data_events_forwarded", st.fwdByData)
@@ -1317,6 +1388,7 @@ func TestVerifC39(t *testing.T) {
 	c.Assume("'the pair that negotiated the slot' is judged at the destination: the index a forwarded datagram leaves on must be one the destination itself holds for the TRUE sender (or, for indexes only announced in crafted messages, one it announced on its current tunnel)")
 	c.Assume("an endpoint that forgets a tunnel with the relay without telling it (silent-2nd) cannot make the relay violate the property: a forward onto an index the destination listed earlier for the true sender is judged by the relay's own records of the onward leg")
 	c.Assume("the state of the incoming leg is not judged (the statement names the onward leg); a sender using a slot before answering is taken as consent")
+	c.Assume("a certificate's unsafe (routed) networks do not make their addresses the holder's own: a peer 'is' its certificate's overlay addresses only; the routed network of the routed configurations lies inside the overlay network (the statement does not restrict where routed networks lie)")
 	c.Assume("virtual time and timer-wheel positions are not part of the canonical state; counters, keys and raw index values are abstracted")
 	c.Set("transitions_judged_exactly_single_message_events", st.exactTransitions)
 	c.Set("forwards_through_the_relayfrom_defect", st.spoofFinding)
@@ -1328,6 +1400,9 @@ func TestVerifC39(t *testing.T) {
 		c.Require(st.slotDeaths > 0, "no relay slot ever went away with its tunnel")
 		c.Require(st.nonFinalDeletesWithSlots > 0 && st.nonFinalDeletes > 0, "no relay slot went away with a tunnel while a second tunnel with the same peer stayed (relay %d, endpoints %d)", st.nonFinalDeletesWithSlots, st.nonFinalDeletes)
 		c.Require(st.probesFormer > 0 && st.probesSecond > 0 && st.secondClosed > 0, "former-index / lingering-tunnel probes not reached: %d %d %d", st.probesFormer, st.probesSecond, st.secondClosed)
+		c.Require(st.routedWorlds > 0 && st.reqCovered > 0 && st.reqCoveredRefused > 0 && st.respCovered > 0 && st.routedHonest > 0,
+			"routed configurations not exercised: worlds %d, covered requests %d (refused %d), covered responses %d, honest packets of the routed peer %d",
+			st.routedWorlds, st.reqCovered, st.reqCoveredRefused, st.respCovered, st.routedHonest)
 		c.Require(st.stateSeen[0] > 0 && st.stateSeen[1] > 0 && st.stateSeen[2] > 0 && st.stateSeen[3] > 0, "slot states not all reached: %v", st.stateSeen)
 		c.Require(len(st.trans) >= 4, "too few distinct state transitions observed: %v", st.trans)
 	}
